@@ -200,6 +200,20 @@ theorem call_sequence (P : Prog) (hP : SchemaOK P) (svc : Service) (specs : List
     runCalls P svc specs (Conn.fresh seq) = (Conn.fresh (seqAfter specs.length seq), obsAlone P svc seq specs) :=
   runCalls_fresh P hP svc specs seq h
 
+/-- **answers that satisfy `AnswerOK`** (the hypothesis of call_roundtrip / call_sequence about the handler), in terms
+of the handler's own value: (1) any error whose text fits a string; (2) for a function returning a value: nil, or any
+well-typed value of the return type that `Write` accepts (void: anything); (3) the i-th declared exception, a
+well-typed value of that exception type that `Write` accepts. `IdsOK` = field ids are int16. -/
+theorem answer_sufficient (P : Prog) (m : Method) (hm : MethodOK P m) (ho : m.oneway = false)
+    (hids : ∀ rd, P.structs[m.result]? = some rd → IdsOK rd.fields) :
+    (∀ msg, (asc "Internal error processing " ++ m.name ++ asc ": " ++ msg).length < maxSize → AnswerOK P m (.err msg)) ∧
+    (∀ v, (m.void = false → v = .nil ∨ ∀ rd sf, P.structs[m.result]? = some rd → rd.fields.head? = some sf →
+        WT P.structs sf.ty v ∧ ∃ w, toW P sf.ty v = .ok w) → AnswerOK P m (.ok v)) ∧
+    (∀ i v, i < m.nthrows → (∀ f, ((throwDefs P m).drop i).head? = some f → WT P.structs f.ty v ∧ ∃ w, toW P f.ty v = .ok w) →
+        AnswerOK P m (.exc i v)) :=
+  ⟨fun msg h => answerOK_err P m msg h, fun v hv => answerOK_ok P m hm ho v hids hv,
+   fun i v hi hv => answerOK_exc P m hm ho i v hi hids hv⟩
+
 /-! non-vacuity: a concrete schema, service chain and call satisfy every hypothesis, and the model computes the
 expected bytes -/
 
